@@ -22,7 +22,74 @@ type serverModel struct {
 	TableLen  int64
 	Handlers  map[int64]*ssa.Function // kind value -> handler method (thunks resolved)
 	Global    *ssa.Global
-	problems  []string
+	// Dispatcher is set instead of Global when the server dispatches with a
+	// switch over Request.Kind (each arm calling one handler) rather than
+	// through a table.
+	Dispatcher *ssa.Function
+	problems   []string
+}
+
+func (m *serverModel) hasDispatch() bool { return m.Global != nil || m.Dispatcher != nil }
+
+func (m *serverModel) anchorPos() token.Pos {
+	if m.Global != nil {
+		return m.Global.Pos()
+	}
+	if m.Dispatcher != nil {
+		return m.Dispatcher.Pos()
+	}
+	return token.NoPos
+}
+
+// findSwitchDispatch: a function of ociserver that, under `rreq.Kind == K`,
+// hands the same request to a handler (a same-package function taking the
+// *ocirequest.Request), for most of the declared kinds.
+func findSwitchDispatch(c *core.Ctx, m *serverModel) {
+	isReq := func(t types.Type) bool {
+		pt, ok := t.(*types.Pointer)
+		return ok && isNamed(pt.Elem(), "internal/ocirequest", "Request")
+	}
+	for _, fn := range c.P.ModuleFunctions("ociserver") {
+		if fn.Parent() != nil {
+			continue
+		}
+		found := map[int64]*ssa.Function{}
+		for _, ci := range facts.CallsIn(fn) {
+			g := ci.Common().StaticCallee()
+			if g == nil || g.Pkg != fn.Pkg || g.Blocks == nil {
+				continue
+			}
+			var reqArg ssa.Value
+			for _, a := range ci.Common().Args {
+				if isReq(a.Type()) {
+					reqArg = a
+				}
+			}
+			if reqArg == nil {
+				continue
+			}
+			for _, cd := range facts.CondsAt(ci.Block()) {
+				x, op, y, ok := facts.Cmp(cd)
+				if !ok || op != token.EQL {
+					continue
+				}
+				base, fld, isF := facts.FieldOf(facts.Resolve(x))
+				if !isF || fld != "Kind" || facts.Term(base) != facts.Term(reqArg) {
+					continue
+				}
+				if k, isK := facts.ConstInt(y); isK {
+					if prev, dup := found[k]; dup && prev != g {
+						m.problems = append(m.problems, sprintf("kind %d is dispatched to two different handlers in %s", k, facts.FuncName(fn)))
+					}
+					found[k] = g
+				}
+			}
+		}
+		if len(found)*2 > len(m.Kinds) && len(found) > len(m.Handlers) {
+			m.Dispatcher = fn
+			m.Handlers = found
+		}
+	}
 }
 
 func loadKinds(c *core.Ctx) (map[string]int64, map[int64]string) {
@@ -76,7 +143,10 @@ func loadServerModel(c *core.Ctx) *serverModel {
 		}
 	}
 	if m.Global == nil {
-		m.problems = append(m.problems, "dispatch table (package-level []func(..., *ocirequest.Request) error) not found in ociserver")
+		findSwitchDispatch(c, m)
+		if m.Dispatcher == nil {
+			m.problems = append(m.problems, "dispatch (package-level []func(..., *ocirequest.Request) error table, or a switch over Request.Kind calling one handler per kind) not found in ociserver")
+		}
 		return m
 	}
 	init := sp.Func("init")
